@@ -5,7 +5,7 @@ ENTRY = {'title': 'Payload decoding conforms to the ecoNET wire layout for every
  'technique': 'Lean 4 round-trip theorems decode(encode m ++ rest) = (valOf m, rest) for every structure and the whole sensor chain (wire layout '
               'written once as encoders = the specification) + correspondence: Lean-encoded messages decoded by the real frames, plus a malformed '
               'stream',
- 'prop_modules': ['C05Sensors', 'C05Params', 'C05Ctx', 'C05CtxDevice', 'C05Device', 'C05Short', 'C05Uid', 'C05ShortParams', 'TieUid', 'TieParams', 'TieSchedule', 'TieStructParams'],
+ 'prop_modules': ['C05Sensors', 'C05Params', 'C05Ctx', 'C05CtxDevice', 'C05Device', 'C05Short', 'C05Uid', 'C05ShortParams', 'TieUid', 'TieParams', 'TieSchedule', 'TieStructParams', 'TieStructSensors'],
  'uses_tables': True,
  'level_text': 'Proof: for ALL well-formed abstract messages and ALL trailing bytes the decoder model run on the Lean-defined encoding returns '
                'exactly the encoded values and the remainder: the 16-section sensor chain (`rt_sensorData`, every presence combination; per-section '
@@ -28,7 +28,13 @@ ENTRY = {'title': 'Payload decoding conforms to the ecoNET wire layout for every
  'level_note': 'All structures have a round-trip theorem. Rests on correspondence: model <-> structures/*.py, purity, error classes of malformed '
                'payloads, formatted model name (printable ASCII only), UTF-8 validity = bytes.decode. Trusted: struct float conversion, inet_ntop '
                'text.',
- 'clauses': {'code tie of the parameter blocks (round 8): the SOURCE TEXT of EcomaxParametersStructure / MixerParametersStructure / '
+ 'clauses': {'code tie of the thermostat-sensors section (round 8): the SOURCE TEXT of ThermostatSensorsStructure (._unpack_thermostat_sensors, '
+             '._thermostat_sensors, .decode), translated on every run, equals Sens.decThermostats / thermoEntries for every message, offset, '
+             'instance and data argument — masks shifted once per slot (connected or not), index = position, 9 bytes per slot, error '
+             'classes': 'theorem (TieStructSensors.unpack_thermostat_eq, thermostat_fold, thermostat_sensors_decode_eq, entriesP_model, '
+                        'decThermostats_shape) + translator validation (harness/pycode.py group sensors; also the translated mixer-sensors, '
+                        'fuel-level, boiler-load, pending-alerts, fan-power, boiler-power, fuel-consumption, output-flags decoders)',
+             'code tie of the parameter blocks (round 8): the SOURCE TEXT of EcomaxParametersStructure / MixerParametersStructure / '
              'ThermostatParametersStructure (.decode and their generators) and utils.ensure_dict, translated on every run, equals P2.decodeEcomax '
              '/ decodeMixer / decodeThermo for every message, offset, instance and data argument': 'theorem (TieStructParams.ecomax_decode_eq, '
                                                                                                    'mixer_decode_eq, thermo_decode_eq, '
